@@ -110,6 +110,7 @@ def run_path(world, it, ref, contract):
         st.old = old
         it.live_olds = [old]
         penv = dict(st.env)
+        it.entry_env = penv
     except _PathEnd:
         return
     result = None
